@@ -1005,3 +1005,35 @@ func AcyclicPaths(target ssa.Instruction, max int) (paths []Path, ok bool) {
 	dfs(fn.Blocks[0])
 	return paths, ok
 }
+
+// ReturnValue resolves result i of a return. Functions with a defer spill their
+// results into slots that are reloaded after RunDefers; the value stored to the
+// slot on this path is returned in that case.
+func ReturnValue(r *ssa.Return, i int) ssa.Value {
+	if i >= len(r.Results) {
+		return nil
+	}
+	v := r.Results[i]
+	ld, ok := v.(*ssa.UnOp)
+	if !ok || ld.Op != token.MUL {
+		return v
+	}
+	a, ok := ld.X.(*ssa.Alloc)
+	if !ok {
+		return v
+	}
+	b := r.Block()
+	for depth := 0; depth < 16 && b != nil; depth++ {
+		for j := len(b.Instrs) - 1; j >= 0; j-- {
+			if st, ok := b.Instrs[j].(*ssa.Store); ok && st.Addr == a {
+				return st.Val
+			}
+		}
+		if len(b.Preds) == 1 {
+			b = b.Preds[0]
+		} else {
+			b = nil
+		}
+	}
+	return v
+}
